@@ -10,6 +10,11 @@
 //! and calls by viewer / expired / unknown sessions or with write_enabled = false leave
 //! the whole tree unchanged.
 //!
+//! Search "history": sequential model-based histories (open / write with latest, older,
+//! re-opened or guessed version / create / delete / rename of files and directories / noise) by
+//! 2-3 sessions on a tree of prefix-sharing names, against a reference model of the version rule
+//! (see `c19/hist.rs`); the disk must equal the model after every call.
+//!
 //! Search "conc": k sessions write one file from real threads following the client
 //! protocol or generated deviations; successes must have pairwise distinct expected
 //! versions, return expected + 1, chain on each other's content, and the file at the end
@@ -34,6 +39,8 @@ use crate::engine::{Probe, PropertyInfo, RunCtx};
 mod conc;
 #[path = "c19/fixture.rs"]
 mod fixture;
+#[path = "c19/hist.rs"]
+mod hist;
 #[path = "c19/paths.rs"]
 mod paths;
 
@@ -45,12 +52,13 @@ pub const KEY_F28: &str = "F28-listing-follows-outside-symlinks";
 pub const KEY_F29: &str = "F29-rename-entry-mkdir-before-session-gate";
 pub const KEY_F30: &str = "F30-listing-backslash-mapping-escape";
 pub const KEY_F31: &str = "F31-hidden-entry-through-internal-symlink";
+pub const KEY_F32: &str = "F32-version-restarts-after-delete-or-rename";
 
 pub fn info() -> PropertyInfo {
     PropertyInfo {
         id: "C19",
         level: "exploration",
-        rule: "paths: a case = fresh scratch tree (canary files outside, hidden entries, dir/file/dangling/to-hidden/internal symlinks) + 1-7 generated WebIdeState calls; non-trivial = a call whose path/glob carries a traversal, hidden, symlink, absolute, backslash, percent-encoded, Unicode look-alike, NUL or over-long component and that got past the lexical normaliser to the file-system stage (reply Ok / NotFound / Conflict / Internal / TooLarge, or the canonical-parent 'escapes project root' refusal of a path without a lexical '..'); conc: a script with >= 2 writer threads whose write calls overlapped (ticket intervals intersect) and >= 1 conflict reply; distinct by SHA-256 of the call sequence / script",
+        rule: "paths: a case = fresh scratch tree (canary files outside, hidden entries, dir/file/dangling/to-hidden/internal symlinks) + 1-7 generated WebIdeState calls; non-trivial = a call whose path/glob carries a traversal, hidden, symlink, absolute, backslash, percent-encoded, Unicode look-alike, NUL or over-long component and that got past the lexical normaliser to the file-system stage (reply Ok / NotFound / Conflict / Internal / TooLarge, or the canonical-parent 'escapes project root' refusal of a path without a lexical '..'); history: a sequential history (2-3 sessions, 5-25 calls on a tree of prefix-sharing names) in which a write based on an out-of-date version (or a guessed version 1 after a successful write) was attempted and >= 1 delete/rename succeeded; conc: a script with >= 2 writer threads whose write calls overlapped (ticket intervals intersect) and >= 1 conflict reply; distinct by SHA-256 of the call sequence / script",
         assumptions: &[
             "observation point is the WebIdeState API (what web.rs forwards request fields to verbatim); HTTP parsing/percent-decoding in web.rs is not exercised",
             "session expiry is driven through hook H1 (injected clock), never through real time",
@@ -58,14 +66,15 @@ pub fn info() -> PropertyInfo {
             "an 'unknown token' is treated like an expired session (after pruning they are the same server state)",
             "hidden entries nested in a non-hidden directory may move/vanish only together with that directory when an editor renames/deletes it as a whole",
             "the project picker (browse_directory, project_selection, set_active_project) is called for crash freedom and the session gate only, not under the confinement oracle",
+            "history search: the reference model knows only the property's rule (a version obtained before a later successful write/creation of the same path must not be accepted; guessed version 1 only before the first write), not the server's version arithmetic; spurious conflicts are accepted",
             "concurrency: real OS threads with generated yields/spins, 20-100 repetitions per script; interleavings are perturbed, not enumerated",
             "Linux path semantics (backslash is an ordinary file-name byte)",
         ],
         workers_quick: 8,
         workers_thorough: 16,
         address_space_limit: 0,
-        watchdog_quick_s: 900,
-        watchdog_thorough_s: 7200,
+        watchdog_quick_s: 3000,
+        watchdog_thorough_s: 14400,
         run,
     }
 }
@@ -826,6 +835,32 @@ fn run(ctx: &mut RunCtx) {
                     return Ok(());
                 }
                 match run_path_case(case, &scratch, open, probe) {
+                    Err(e) if e.starts_with("fixture:") || e.starts_with("infrastructure:") => {
+                        infra.borrow_mut().push(e);
+                        Ok(())
+                    }
+                    other if case.raw => other,
+                    other => budget.seen(other),
+                }
+            },
+        );
+    }
+
+    // (C) sequential histories against the reference model of the version rule
+    {
+        let scratch = scratch.clone();
+        let infra = &infra;
+        let budget = ShrinkBudget::new(1500);
+        let exclude_f32 = ctx.is_open(KEY_F32);
+        ctx.search(
+            "history",
+            tape_strategy(160).prop_map(|t| hist::case_from_tape(&t)),
+            tier.pick(3_000, 100_000),
+            move |case: &hist::HistCase, probe: &mut Probe| {
+                if !budget.allow() {
+                    return Ok(());
+                }
+                match hist::run_case(case, &scratch, exclude_f32, probe) {
                     Err(e) if e.starts_with("fixture:") || e.starts_with("infrastructure:") => {
                         infra.borrow_mut().push(e);
                         Ok(())
